@@ -131,6 +131,23 @@ def pick_alphabet(rng, delim, eol):
     return [c for c in a if c != eol[0]] or [ord("a")]
 
 
+# code points at the edges of the UTF-8 encoding lengths and of the continuation-byte range (80 and BF in
+# every position), plus a few that matter to regex word boundaries and to JSON
+EDGE_CPS = [0x7F, 0x80, 0xBF, 0xC0, 0xFF, 0x100, 0x7FF, 0x800, 0xFFF, 0x1000, 0x203F, 0x20BF, 0x2028, 0xD7FF, 0xE000,
+            0xFFFD, 0xFFFF, 0x10000, 0x1003F, 0x10FC0, 0x3FFFF, 0x40000, 0xFFFFF, 0x100000, 0x10FFFF, 0x301, 0x200D, 0x1F1E6]
+
+
+def rand_scalar(rng):
+    """a random Unicode scalar value, as a str: edge cases, or uniform within an encoding length"""
+    if rng.random() < 0.4:
+        return chr(rng.choice(EDGE_CPS))
+    lo, hi = rng.choice([(0x20, 0x7E), (0x80, 0x7FF), (0x800, 0xFFFF), (0x10000, 0x10FFFF)])
+    while True:
+        cp = rng.randint(lo, hi)
+        if not 0xD800 <= cp <= 0xDFFF:
+            return chr(cp)
+
+
 def utf8_text(rng, maxlen=5, pool=None):
     pool = pool or ["a", "b", " ", "é", "ß", "€", "漢", "𝄞", "😀", "é", " ", "\u007f", "\"", "\\", "\t", "\r", "\u0001", "\u001f", "-", ","]
-    return "".join(rng.choice(pool) for _ in range(rng.randint(0, maxlen)))
+    return "".join((rand_scalar(rng) if rng.random() < 0.2 else rng.choice(pool)) for _ in range(rng.randint(0, maxlen)))
